@@ -45,13 +45,13 @@ Definition rd (k : rkind) (n : nat) (bs : bytes) : bytes * bytes * rstat :=
   | RFile =>
     match n, bs with
     | O, _ => ([], bs, ROk)
-    | _, [] => (pad_to n [], [], REof)
+    | _, [] => ([], [], REof)
     | _, _ => (pad_to n (firstn n bs), skipn n bs, ROk)
     end
   | RGroup =>
     match n with
     | O => ([], bs, RErrEmpty)
-    | _ => if Nat.ltb (length bs) n then (pad_to n bs, [], REof)
+    | _ => if Nat.ltb (length bs) n then ([], [], REof)   (* buffer contents are not used on error *)
            else (firstn n bs, skipn n bs, ROk)
     end
   end.
